@@ -215,6 +215,15 @@ def tlv_tampered(tlv, field, how):
     return write_tlv(d)
 
 
+def tlv_tags(data):
+    """Tags of a byte string read as TLV8 (own reader, tolerant)."""
+    tags, pos = set(), 0
+    while pos + 1 < len(data):
+        tags.add(data[pos])
+        pos += 2 + data[pos + 1]
+    return tags
+
+
 def error_tlv(seqno, code=2):
     from pyatv.auth.hap_tlv8 import TlvValue, write_tlv
     return write_tlv({TlvValue.SeqNo: bytes([seqno]), TlvValue.Error: bytes([code])})
@@ -235,7 +244,13 @@ def mutate_tlv(tlv, plan, reencrypt=None):
     """Common TLV-level mutations.  reencrypt(field_no, how) handles fields inside the encrypted
     part (sub = 'inner:<Field>')."""
     if plan.kind == "error":
-        return error_tlv(seq_of(tlv), int(plan.sub or 2))
+        sub = str(plan.sub or "2")
+        if sub.endswith("+fields"):       # the honest fields plus an error item
+            from pyatv.auth.hap_tlv8 import TlvValue, read_tlv, write_tlv
+            d = read_tlv(tlv)
+            d[TlvValue.Error] = bytes([int(sub.split("+")[0])])
+            return write_tlv(d)
+        return error_tlv(seq_of(tlv), int(sub))
     if plan.kind == "garbage":       # sub == 'payload'
         return plan.garbage
     if plan.kind in ("missing", "tamper"):
@@ -244,9 +259,11 @@ def mutate_tlv(tlv, plan, reencrypt=None):
         if plan.kind == "tamper" and "/" in sub:
             sub, how = sub.split("/")
         if sub.startswith("inner:"):
-            if reencrypt is None:
+            if reencrypt is None or sub[6:] not in FIELD:
                 return None
             return reencrypt(FIELD[sub[6:]], how if plan.kind == "tamper" else None)
+        if sub not in FIELD:
+            return None
         if plan.kind == "missing":
             return tlv_without(tlv, FIELD[sub])
         return tlv_tampered(tlv, FIELD[sub], how)
@@ -316,10 +333,6 @@ def make_mrp_device(plan):
 
         def mutate(self, name, honest, plan):
             if name == "device-info":
-                if plan.kind == "error":
-                    # a device that refuses: generic error message type instead of device info
-                    m = messages.create(protobuf.GENERIC_MESSAGE, identifier=honest.identifier, error_code=protobuf.ErrorCode.UnknownError if hasattr(protobuf, "ErrorCode") else 1)
-                    return m
                 if plan.kind == "garbage":
                     s = plan.garbage
                     return write_variant(len(s)) + s
@@ -569,6 +582,7 @@ def make_airplay_device(plan, legacy):
         # BasicHttpServer -> "transport"
         def write(self, data):
             resp, _ = http.parse_response(data)
+            resp = resp._replace(headers={k: v for k, v in resp.headers.items() if k.lower() != "content-length"})
             self.emit(self._name, resp)
 
         def data_received(self, data):
@@ -705,10 +719,18 @@ def exc_name(ex):
     return type(ex).__name__
 
 
-async def call(coro_factory, plan, cancel):
-    """Run one API call; in cancel mode cancel it once the device is holding the chosen reply."""
+async def call(coro_factory, plan, cancel, cancel_after=None):
+    """Run one API call; in cancel mode cancel it once the device is holding the chosen reply; with
+    cancel_after=k cancel it after k turns of the event loop (wherever it happens to be)."""
     task = asyncio.ensure_future(coro_factory())
-    if cancel:
+    if cancel_after is not None:
+        for _ in range(cancel_after):
+            if task.done():
+                break
+            await asyncio.sleep(0)
+        if not task.done():
+            task.cancel()
+    elif cancel:
         for _ in range(400):
             if task.done() or plan.blocked:
                 break
@@ -727,14 +749,18 @@ async def call(coro_factory, plan, cancel):
 
 
 async def scenario(spec):
-    """spec: handler, index, kind, sub, garbage(hex), pin, cancel(bool), misuse, no_old_service.
+    """spec: handler, index, kind, sub, garbage(hex), pin, cancel(bool), cancel_after+phase, misuse, fresh.
     Returns the observation dict."""
     from pyatv import exceptions
     handler = spec["handler"]
     loop = asyncio.get_running_loop()
     old_service, old_settings = old_credentials(handler)
-    if spec.get("no_old_service"):
+    if spec.get("fresh"):             # first-time pairing: nothing stored anywhere
+        old_service, old_settings = None, None
+    if spec.get("stored") == "settings-only":
         old_service = None
+    elif spec.get("stored") == "service-only":
+        old_settings = None
     plan = Plan(spec.get("index"), spec.get("kind"), spec.get("sub"), bytes.fromhex(spec.get("garbage", "")), hold=bool(spec.get("cancel")))
     devices = []
 
@@ -753,14 +779,22 @@ async def scenario(spec):
     h, service, settings = build_handler(handler, loop, old_service, old_settings)
     sattr = SETTINGS_ATTR[handler]
 
+    others = [p for p in ("airplay", "companion", "dmap", "mrp", "raop") if p != sattr]
+    for p in others:
+        getattr(settings.protocols, p).credentials = "other-protocol-" + p
+
     def snap():
         return {"service": service.credentials, "settings": getattr(settings.protocols, sattr).credentials, "has_paired": bool(h.has_paired)}
 
+    def snap_others():
+        return {p: getattr(settings.protocols, p).credentials for p in others}
+
     obs = {"before": snap(), "old": {"service": old_service, "settings": old_settings}}
+    others_before = snap_others()
     misuse = spec.get("misuse")
     res_b, ex_b = ("skipped", None)
     if misuse != "no_begin":
-        res_b, ex_b = await call(h.begin, plan, spec.get("cancel"))
+        res_b, ex_b = await call(h.begin, plan, spec.get("cancel"), spec.get("cancel_after") if spec.get("phase") == "begin" else None)
     obs["begin"] = res_b if ex_b is None else "raised:" + exc_name(ex_b)
     obs["begin_msg"] = str(ex_b)[:200] if ex_b is not None else None
     obs["after_begin"] = snap()
@@ -768,10 +802,11 @@ async def scenario(spec):
     if res_b in ("ok", "skipped"):
         if misuse != "no_pin":
             h.pin(spec.get("pin", PIN))
-        res_f, ex_f = await call(h.finish, plan, spec.get("cancel"))
+        res_f, ex_f = await call(h.finish, plan, spec.get("cancel"), spec.get("cancel_after") if spec.get("phase") == "finish" else None)
     obs["finish"] = res_f if ex_f is None else "raised:" + exc_name(ex_f)
     obs["finish_msg"] = str(ex_f)[:200] if ex_f is not None else None
     obs["after"] = snap()
+    obs["other_protocols_changed"] = sorted(p for p, v in snap_others().items() if v != others_before[p])
     obs["replies"] = list(plan.names)
     obs["hit"] = plan.hit
     obs["hit_name"] = plan.names[plan.index] if (plan.hit and plan.index is not None and plan.index < len(plan.names)) else None
@@ -816,16 +851,34 @@ def check_new_credentials(handler, cred):
 
 # ------------------------------------------------------------------------------------ oracle
 
-def fault_is_failure(spec, obs):
-    """Did the exchange fail, by the property text?  True for every fault that was actually hit,
-    for a wrong PIN, for misuse.  (The fault-free run is the only successful exchange.)"""
-    if spec.get("misuse"):
+TRANSPORT_KINDS = ("drop", "disconnect", "refused")
+EXCHANGE_REPLIES = {
+    # replies whose CONTENT belongs to the pairing exchange.  Not in here: MRP's device-info reply and
+    # Companion's connect-time pair-verify with the OLD credentials (connection set-up: the handler
+    # needs nothing from their content), the body of the 200 OK to /pair-pin-start (there is none).
+    "mrp": ("ps-m2", "ps-m4", "ps-m6", "pv-m2", "pv-m4"),
+    "companion": ("ps-m2", "ps-m4", "ps-m6"),
+    "airplay_hap": ("ps-m2", "ps-m4", "ps-m6"),
+    "raop_hap": ("ps-m2", "ps-m4", "ps-m6"),
+    "airplay_legacy": ("legacy-step1", "legacy-step2", "legacy-step3"),
+    "raop": ("legacy-step1", "legacy-step2", "legacy-step3"),
+}
+
+
+def exchange_failed(spec, obs):
+    """Did the pairing exchange fail, by the property text (wrong PIN, error reply, malformed or
+    missing fields, timeout, disconnect)?  'tamper' (well-formed reply with altered bytes) is an
+    authenticity question (C06) and is judged for consistency only."""
+    if spec.get("misuse") or spec.get("kind") == "wrong_pin":
         return True
-    if spec.get("kind") == "wrong_pin":
-        return True
-    if spec.get("cancel"):
+    kind = spec.get("kind")
+    if not kind or not obs["hit"] or spec.get("cancel"):
         return False
-    return bool(spec.get("kind")) and obs["hit"]
+    if kind in TRANSPORT_KINDS or (kind == "garbage" and spec.get("sub") == "wire") or (kind == "error" and str(spec.get("sub", "")).startswith("http")):
+        return True
+    if kind in ("error", "garbage", "missing"):
+        return obs.get("hit_name") in EXCHANGE_REPLIES[spec["handler"]]
+    return False
 
 
 def judge(spec, obs):
@@ -838,48 +891,502 @@ def judge(spec, obs):
     success = obs["begin"] == "ok" and obs["finish"] == "ok"
     before, after = obs["before"], obs["after"]
     wrote = after["service"] != before["service"] or after["settings"] != before["settings"]
-    where = "%s %s%s at %s" % (handler, spec.get("kind") or "fault-free", ("/" + str(spec.get("sub"))) if spec.get("sub") else "",
+    where = "%s %s%s at %s" % (handler, spec.get("kind") or spec.get("misuse") or "fault-free", ("/" + str(spec.get("sub"))) if spec.get("sub") else "",
                                obs.get("hit_name") or "-")
-    if obs["after_begin"]["service"] != before["service"] or obs["after_begin"]["settings"] != before["settings"] or obs["after_begin"]["has_paired"]:
-        out.append(("C08:%s:credentials-written-on-failure" % hk if not obs["after_begin"]["has_paired"] else "C08:%s:has-paired-on-failure" % hk,
-                    "begin() alone changed credentials/has_paired (%s)" % where))
+    ab = obs["after_begin"]
+    if ab["service"] != before["service"] or ab["settings"] != before["settings"]:
+        out.append(("C08:%s:credentials-written-on-failure" % hk, "%s: begin() alone changed the stored credentials: %s -> %s" % (where, before, ab)))
+    if ab["has_paired"]:
+        out.append(("C08:%s:has-paired-on-failure" % hk, "%s: has_paired is True after begin() alone" % where))
+    if obs.get("other_protocols_changed"):
+        out.append(("C08:%s:service-and-settings-disagree" % hk, "%s: credentials of OTHER protocols in the settings were changed: %s" % (where, obs["other_protocols_changed"])))
     if cancelled:
-        if wrote:
-            out.append(("C08:%s:credentials-written-on-cancel" % hk, "cancelled while waiting for %s but credentials changed: %s -> %s" % (obs.get("hit_name"), before, after)))
-        if after["has_paired"]:
-            out.append(("C08:%s:credentials-written-on-cancel" % hk, "cancelled while waiting for %s but has_paired is True" % obs.get("hit_name")))
+        if wrote or after["has_paired"]:
+            at = ("while waiting for %s" % obs.get("hit_name")) if spec.get("cancel") else ("%s() after %s turns of the event loop" % (spec.get("phase"), spec.get("cancel_after")))
+            out.append(("C08:%s:credentials-written-on-cancel" % hk, "%s: cancelled %s but credentials/has_paired changed: %s -> %s" % (handler, at, before, after)))
         return out
     if raised:
         if wrote:
-            out.append(("C08:%s:credentials-written-on-failure" % hk, "%s: %s/%s raised but credentials changed: %s -> %s" % (where, obs["begin"], obs["finish"], before, after)))
+            out.append(("C08:%s:credentials-written-on-failure" % hk, "%s: begin=%s finish=%s but credentials changed: %s -> %s" % (where, obs["begin"], obs["finish"], before, after)))
         if after["has_paired"]:
-            out.append(("C08:%s:has-paired-on-failure" % hk, "%s: %s/%s raised but has_paired is True" % (where, obs["begin"], obs["finish"])))
+            out.append(("C08:%s:has-paired-on-failure" % hk, "%s: begin=%s finish=%s but has_paired is True" % (where, obs["begin"], obs["finish"])))
         if not obs["exc_ok"]:
             out.append(("C08:%s:wrong-exception" % hk, "%s: begin=%s finish=%s is neither a pairing nor a connection error" % (where, obs["begin"], obs["finish"])))
-        if not fault_is_failure(spec, obs) and not spec.get("kind"):
+        if not spec.get("kind") and not spec.get("misuse"):
             out.append(("C08:%s:success-not-recorded" % hk, "fault-free exchange failed: begin=%s (%s) finish=%s (%s)" % (obs["begin"], obs["begin_msg"], obs["finish"], obs["finish_msg"])))
         return out
     if success:
-        if fault_is_failure(spec, obs):
-            # the exchange failed but begin()/finish() reported nothing
+        if exchange_failed(spec, obs):
             suffix = ":%s:%s" % (obs.get("hit_name") or spec.get("misuse") or "pin", spec.get("kind") or "misuse")
             if wrote or after["has_paired"]:
                 out.append(("C08:%s:credentials-written-on-failure%s" % (hk, suffix),
-                            "%s: the exchange failed but finish() returned normally, credentials %s -> %s, has_paired=%s" % (where, before, after, after["has_paired"])))
+                            "%s: the exchange failed but finish() returned normally; credentials %s -> %s, has_paired=%s" % (where, before, after, after["has_paired"])))
             else:
                 out.append(("C08:%s:wrong-exception%s" % (hk, suffix), "%s: the exchange failed but neither begin() nor finish() raised" % where))
             return out
-        # genuine success: everything must be recorded, consistently
+        # a completed exchange: everything must be recorded, consistently
         if not (after["service"] and after["service"] != obs["old"]["service"] and after["settings"] and after["settings"] != obs["old"]["settings"] and after["has_paired"]):
             out.append(("C08:%s:success-not-recorded" % hk, "%s: exchange completed but not everything was recorded: %s" % (where, after)))
         if after["service"] != after["settings"]:
             out.append(("C08:%s:service-and-settings-disagree" % hk, "%s: service has %r, settings have %r" % (where, after["service"], after["settings"])))
-        if obs["new_credentials_valid"] is False:
+        if obs["new_credentials_valid"] is False and spec.get("kind") != "tamper":
             out.append(("C08:%s:success-not-recorded" % hk, "%s: stored credentials are not the ones negotiated with this device: %r" % (where, after["service"])))
         if not obs["device_paired"]:
             out.append(("C08:%s:credentials-written-on-failure" % hk, "%s: handler reports success but the device never completed the exchange" % where))
     return out
 
 
+class SeededRandomness:
+    """pyatv and srptools draw key material from os.urandom / SystemRandom.  For reproducible runs
+    (and exact replays) all of it is drawn from one PRNG seeded by spec['rseed'] (default 1)."""
+
+    def __init__(self, seed):
+        self.rng = random.Random(seed)
+
+    def urandom(self, n):
+        return bytes(self.rng.randrange(256) for _ in range(n))
+
+    def __enter__(self):
+        import srptools.context as sc
+        import pyatv.protocols.airplay.srp as asrp
+        self.saved = (os.urandom, sc.random, asrp.urandom)
+        os.urandom = self.urandom
+        sc.random = lambda: self.rng
+        asrp.urandom = self.urandom
+        return self
+
+    def __exit__(self, *a):
+        import srptools.context as sc
+        import pyatv.protocols.airplay.srp as asrp
+        os.urandom, sc.random, asrp.urandom = self.saved
+
+
 def run_spec(spec):
-    return vloop.run(scenario, spec)
+    import logging
+    logging.disable(logging.CRITICAL)
+    try:
+        with SeededRandomness(int(spec.get("rseed", 1))):
+            return vloop.run(scenario, spec)
+    finally:
+        logging.disable(logging.NOTSET)
+
+
+# ------------------------------------------------------------------------------------ fault matrix
+
+CONTENT_FAULTS = {
+    # reply name -> [(kind, sub)] beyond the faults applied to every reply
+    "ps-m2": [("missing", "Salt"), ("missing", "PublicKey"), ("tamper", "Salt/flip"), ("tamper", "Salt/empty"), ("tamper", "PublicKey/flip"),
+              ("tamper", "PublicKey/truncate"), ("tamper", "PublicKey/empty")],
+    "ps-m4": [("missing", "Proof"), ("tamper", "Proof/flip"), ("tamper", "Proof/empty")],
+    "ps-m6": [("missing", "EncryptedData"), ("missing", "inner:Identifier"), ("missing", "inner:Signature"), ("missing", "inner:PublicKey"),
+              ("tamper", "EncryptedData/flip"), ("tamper", "EncryptedData/truncate"), ("tamper", "EncryptedData/empty"),
+              ("tamper", "inner:Signature/flip"), ("tamper", "inner:PublicKey/flip"), ("tamper", "inner:Identifier/flip")],
+    "pv-m2": [("missing", "PublicKey"), ("missing", "EncryptedData"), ("missing", "inner:Identifier"), ("missing", "inner:Signature"),
+              ("tamper", "PublicKey/flip"), ("tamper", "PublicKey/truncate"), ("tamper", "EncryptedData/flip"), ("tamper", "EncryptedData/empty"),
+              ("tamper", "inner:Identifier/flip"), ("tamper", "inner:Signature/flip")],
+    "pv-m4": [],
+    "legacy-step1": [("missing", "pk"), ("missing", "salt"), ("missing", "not-a-dict"), ("tamper", "pk/flip"), ("tamper", "pk/empty"), ("tamper", "salt/flip")],
+    "legacy-step2": [("missing", "proof"), ("missing", "not-a-dict"), ("tamper", "proof/flip")],
+    "legacy-step3": [("missing", "epk"), ("missing", "authTag"), ("missing", "not-a-dict"), ("tamper", "epk/flip")],
+    "pin-start": [],
+    "device-info": [],
+}
+WRONG_PINS = [1112, 0, 9999, 111, 1110, "11111"]
+
+
+def matrix(handler, names, rng, thorough, extra=None, light=False):
+    """All fault specs for one handler; names = replies of the fault-free run, in order.
+    extra: merged into every spec (e.g. {"fresh": True}); light: transport faults + plain error only."""
+    specs = []
+    extra = extra or {}
+    http = handler.startswith(("airplay", "raop"))
+    tlv_based = not handler.endswith("legacy") and handler != "raop"
+
+    def g(n, payload=False):
+        # a garbage PAYLOAD must not accidentally be a TLV that carries one of the data items
+        # (Salt, PublicKey, Proof, EncryptedData) - it would then be a different experiment
+        while True:
+            b = bytes(rng.randrange(256) for _ in range(n))
+            if not payload or not (tlv_tags(b) & {2, 3, 4, 5}):
+                return b.hex()
+
+    for i, name in enumerate(names):
+        faults = [("drop", None), ("disconnect", "clean"), ("disconnect", "reset"), ("garbage", "wire")]
+        if http:
+            faults += [("error", "http470"), ("error", "http500"), ("error", "http403")]
+        if name not in ("device-info", "pin-start"):
+            faults.append(("garbage", "payload"))
+            if tlv_based:
+                faults += [("error", "2"), ("error", "3"), ("error", "2+fields"), ("error", "6+fields")]
+            if handler == "companion":
+                faults += [("error", "_em"), ("missing", "_pd"), ("garbage", "opack"), ("garbage", "pd-type")]
+            if handler in ("airplay_hap", "raop_hap"):
+                faults.append(("garbage", "text-body"))
+        elif name == "device-info":
+            faults.append(("garbage", "payload"))
+        faults += CONTENT_FAULTS.get(name, [])
+        if light:
+            faults = [f for f in faults if f in (("drop", None), ("disconnect", "clean"), ("error", "2"), ("error", "http470"), ("garbage", "payload"))]
+        for kind, sub in faults:
+            reps = 8 if (thorough and kind == "garbage") else 1
+            for _ in range(reps):
+                sp = {"handler": handler, "index": i, "kind": kind, "sub": sub}
+                if kind == "garbage":
+                    sp["garbage"] = g(rng.choice([1, 2, 5, 17, 40, 64]), payload=(sub != "wire"))
+                specs.append(sp)
+        specs.append({"handler": handler, "index": i, "cancel": True})
+    specs.append({"handler": handler, "kind": "refused"})
+    for pin in WRONG_PINS:
+        specs.append({"handler": handler, "kind": "wrong_pin", "pin": pin})
+    specs.append({"handler": handler, "misuse": "no_pin"})
+    specs.append({"handler": handler, "misuse": "no_begin"})
+    if light:
+        specs = [sp for sp in specs if sp.get("kind") != "wrong_pin" or sp["pin"] == 1112]
+    if thorough and not light:
+        for _ in range(30):
+            pin = rng.randrange(10000)
+            if pin != PIN:
+                specs.append({"handler": handler, "kind": "wrong_pin", "pin": pin})
+    return [dict(sp, **extra) for sp in specs]
+
+
+# ------------------------------------------------------------------------------------ DMAP
+
+def dmap_code(guid_hex, pin):
+    """Pairing code a remote sends (independent computation): MD5 of the 16 upper-case hex digits of
+    the pairing guid followed by the four PIN digits, each followed by a NUL byte."""
+    digits = "%04d" % pin
+    raw = guid_hex.upper().encode("ascii") + b"".join(d.encode("ascii") + b"\x00" for d in digits)
+    return hashlib.md5(raw).hexdigest()
+
+
+DMAP_PINS = [0, 1, 7, 1234, 9999, None]
+
+
+async def scenario_dmap(spec):
+    """spec: pin (configured, may be None), code ('correct' | 'other:<pin>' | 'garbage:<text>' | 'upper' | 'missing'),
+    with_begin (bool).  One pairing request, then finish()."""
+    from pyatv import conf
+    from pyatv.const import Protocol
+    from pyatv.core import Core, MutableService, ProtocolStateDispatcher, CoreStateDispatcher
+    from pyatv.settings import Settings
+    from pyatv.support.state_producer import StateProducer
+    from pyatv.protocols.dmap import pairing as dp
+    from pyatv.protocols import dmap
+    from pyatv.protocols.dmap import parser, tag_definitions
+
+    class SessionManager:
+        async def close(self):
+            pass
+
+    class Zc:
+        def close(self):
+            pass
+
+    loop = asyncio.get_running_loop()
+    old_service, old_settings = old_credentials("dmap")
+    service = MutableService("fake-id", Protocol.DMAP, 3689, {}, credentials=old_service)
+    settings = Settings()
+    settings.protocols.dmap.credentials = old_settings
+    core = Core(loop, conf.AppleTV("10.0.0.2", "Fake"), service, settings, StateProducer(), SessionManager(), lambda *a: (lambda: None),
+                ProtocolStateDispatcher(Protocol.DMAP, CoreStateDispatcher()))
+    guid = spec.get("guid", "0x0123456789ABCDEF")
+    h = dmap.pair(core, zeroconf=Zc(), addresses=["10.0.0.1"], pairing_guid=guid, name="verif")
+    guid_hex = guid[2:].upper()
+    pin = spec.get("pin")
+    if pin is not None:
+        h.pin(pin)
+
+    def snap():
+        return {"service": service.credentials, "settings": settings.protocols.dmap.credentials, "has_paired": bool(h.has_paired)}
+
+    obs = {"before": snap()}
+    published = []
+    if spec.get("with_begin"):
+        class Site:
+            def __init__(self, *a, **k):
+                pass
+
+            async def start(self):
+                pass
+
+        async def publish(loop_, svc, zc):
+            published.append(dict(svc.properties))
+
+        saved = (dp.web.TCPSite, dp.mdns.publish)
+        dp.web.TCPSite, dp.mdns.publish = Site, publish
+        try:
+            try:
+                await h.begin()
+                obs["begin"] = "ok"
+            except Exception as ex:  # noqa
+                obs["begin"] = "raised:" + exc_name(ex)
+        finally:
+            dp.web.TCPSite, dp.mdns.publish = saved
+        obs["after_begin"] = snap()
+        obs["published_guid"] = published[0].get("Pair") if published else None
+    code = spec["code"]
+    query = {"servicename": "remote"}
+    if code == "correct":
+        query["pairingcode"] = dmap_code(guid_hex, pin if pin is not None else 0)
+    elif code == "upper":
+        query["pairingcode"] = dmap_code(guid_hex, pin if pin is not None else 0).upper()
+    elif code.startswith("other:"):
+        query["pairingcode"] = dmap_code(guid_hex, int(code[6:]))
+    elif code.startswith("garbage:"):
+        query["pairingcode"] = code[8:]
+    elif code == "otherguid":
+        query["pairingcode"] = dmap_code("FEDCBA9876543210", pin if pin is not None else 0)
+
+    class Url:
+        pass
+
+    class Request:
+        rel_url = Url()
+    Request.rel_url.query = query
+    try:
+        resp = await h.handle_request(Request())
+        obs["status"] = resp.status
+        body = resp.body
+        obs["body_guid"] = None
+        if resp.status == 200 and body:
+            parsed = parser.parse(bytes(body), tag_definitions.lookup_tag)
+            obs["body_guid"] = parser.first(parsed, "cmpa", "cmpg")
+    except Exception as ex:  # noqa
+        obs["status"] = "raised:" + exc_name(ex)
+    obs["after_request"] = snap()
+    try:
+        await h.finish()
+        obs["finish"] = "ok"
+    except Exception as ex:  # noqa
+        obs["finish"] = "raised:" + exc_name(ex)
+    obs["after"] = snap()
+    obs["expected_credentials"] = "0x" + guid_hex
+    try:
+        await h.close()
+    except Exception:  # noqa
+        pass
+    return obs
+
+
+def judge_dmap(spec, obs):
+    out = []
+    pin = spec.get("pin")
+    code = spec["code"]
+    should_accept = (pin is None and code != "missing") or code in ("correct", "upper")
+    before, after = obs["before"], obs["after"]
+    wrote = after["service"] != before["service"] or after["settings"] != before["settings"]
+    desc = "configured PIN %r, request code %s" % (pin, code)
+    if spec.get("with_begin"):
+        ab = obs.get("after_begin", before)
+        if obs.get("begin") != "ok":
+            out.append(("C08:dmap:wrong-exception", "begin() with the web server and mDNS faked failed: %s" % obs.get("begin")))
+        if ab != before:
+            out.append(("C08:dmap:credentials-written-on-failure", "begin() alone changed credentials/has_paired: %s -> %s" % (before, ab)))
+    if obs["after_request"]["service"] != before["service"] or obs["after_request"]["settings"] != before["settings"]:
+        out.append(("C08:dmap:credentials-written-on-failure", "%s: credentials written before finish()" % desc))
+    if not should_accept:
+        if obs["status"] == 200 or after["has_paired"] or wrote:
+            out.append(("C08:dmap:wrong-pin-accepted", "%s: status=%s has_paired=%s credentials %s -> %s" % (desc, obs["status"], after["has_paired"], before, after)))
+        if isinstance(obs["status"], str) and code != "missing":
+            out.append(("C08:dmap:wrong-exception", "%s: handle_request %s" % (desc, obs["status"])))
+    else:
+        ok = (obs["status"] == 200 and after["has_paired"] and after["service"] == obs["expected_credentials"]
+              and after["settings"] == obs["expected_credentials"] and obs["finish"] == "ok")
+        if not ok:
+            out.append(("C08:dmap:success-not-recorded", "%s: status=%s finish=%s after=%s (expected credentials %s)" % (desc, obs["status"], obs["finish"], after, obs["expected_credentials"])))
+        elif after["service"] != after["settings"]:
+            out.append(("C08:dmap:service-and-settings-disagree", "%s: %s" % (desc, after)))
+        if obs["status"] == 200 and obs.get("body_guid") != int(obs["expected_credentials"], 16):
+            out.append(("C08:dmap:success-not-recorded", "%s: reply carries pairing guid %r, credentials are %s" % (desc, obs.get("body_guid"), obs["expected_credentials"])))
+    return out
+
+
+def dmap_specs(rng, thorough):
+    specs = []
+    for pin in DMAP_PINS:
+        codes = ["correct", "upper", "otherguid", "missing", "garbage:", "garbage:zz", "garbage:" + "0" * 32,
+                 "garbage:" + "".join(rng.choice("0123456789abcdef") for _ in range(32))]
+        others = [p for p in (0, 1, 7, 1234, 9999, 10, 70, 1000, 7000) if p != pin]
+        codes += ["other:%d" % p for p in others]
+        if thorough:
+            codes += ["other:%d" % rng.randrange(10000) for _ in range(40)]
+        for c in codes:
+            if c.startswith("other:") and pin is not None and int(c[6:]) == pin:
+                continue
+            specs.append({"handler": "dmap", "pin": pin, "code": c, "with_begin": c == "correct"})
+    # a guid from the generator
+    specs.append({"handler": "dmap", "pin": 1234, "code": "correct", "guid": "0x" + "%016X" % rng.getrandbits(64)})
+    specs.append({"handler": "dmap", "pin": 1234, "code": "other:4321", "guid": "0x" + "%016X" % rng.getrandbits(64)})
+    return specs
+
+
+def run_dmap(spec):
+    import logging
+    logging.disable(logging.CRITICAL)
+    try:
+        return vloop.run(scenario_dmap, spec)
+    finally:
+        logging.disable(logging.NOTSET)
+
+
+# ------------------------------------------------------------------------------------ entry points
+
+def evaluate(spec):
+    """-> (observation, [(key, what)]).  spec['tag'] (corpus witnesses of recorded findings) is
+    appended to the keys so that such a finding has a key of its own."""
+    if spec["handler"] == "dmap":
+        obs = run_dmap(spec)
+        verdicts = judge_dmap(spec, obs)
+    else:
+        obs = run_spec(spec)
+        verdicts = judge(spec, obs)
+    if spec.get("tag"):
+        verdicts = [(k + ":" + spec["tag"], w) for k, w in verdicts]
+    return obs, verdicts
+
+
+def canon(spec):
+    return tuple(sorted((k, str(v)) for k, v in spec.items() if k != "part"))
+
+
+def brief(obs):
+    keys = ("begin", "finish", "begin_msg", "finish_msg", "hit_name", "before", "after", "status", "after_request", "replies")
+    return {k: obs[k] for k in keys if k in obs}
+
+
+def _eval_safe(spec):
+    try:
+        return evaluate(spec)
+    except BaseException as ex:  # noqa
+        import traceback
+        return ("driver-error", "%r\n%s" % (ex, traceback.format_exc()[-1500:]))
+
+
+def run_part(ctx):
+    import multiprocessing
+    ctx.extra.setdefault("dyn", {})
+    table = {}
+    n_runs = 0
+    swallowed_tamper = []
+    samples, sampled = [], set()
+    # every run is an independent function of its spec (fresh handler, fresh virtual-time loop), so the
+    # runs are spread over a few worker processes; results are consumed in submission order
+    workers = max(1, min(8, (os.cpu_count() or 2) // 2))
+    pool = multiprocessing.get_context("fork").Pool(workers) if workers > 1 else None
+
+    def many(specs, from_corpus=None):
+        specs = [dict(sp, part="dyn") for sp in specs]
+        results = pool.map(_eval_safe, specs, chunksize=4) if pool else [_eval_safe(sp) for sp in specs]
+        out = []
+        for idx, (spec, res) in enumerate(zip(specs, results)):
+            out.append(record(spec, res, from_corpus[idx] if from_corpus else None))
+        return out
+
+    def record(spec, res, from_corpus):
+        nonlocal n_runs
+        if res[0] == "driver-error":   # the driver itself failed: the tie to the code is broken
+            ctx.tie_broken("dyn:driver", json.dumps({"spec": spec, "error": res[1]}))
+            return None
+        obs, verdicts = res
+        n_runs += 1
+        h = spec["handler"]
+        kind = spec.get("kind") or spec.get("misuse") or ("cancel" if (spec.get("cancel") or "cancel_after" in spec) else ("code" if h == "dmap" else "fault-free"))
+        ctx.count("%s:%s" % (h, kind))
+        hit = obs.get("hit", True) or kind in ("fault-free", "wrong_pin", "no_pin", "no_begin", "code") or "cancel_after" in spec
+        if (h, kind) not in sampled and len(samples) < 60:
+            sampled.add((h, kind))
+            samples.append({"spec": spec, "observed": brief(obs)})
+        ctx.case(canon(spec), nontrivial=bool(hit), sample=None)
+        if h != "dmap":
+            outcome = obs["finish"] if obs["finish"] != "skipped" else "begin " + obs["begin"]
+            label = kind + ("/" + str(spec["sub"]) if spec.get("sub") else "") + ("(fresh)" if spec.get("fresh") else "")
+            if "cancel_after" not in spec:
+                table.setdefault(h, {}).setdefault("%s@%s" % (label, obs.get("hit_name") or "-"), outcome)
+            if kind == "tamper" and obs["begin"] == "ok" and obs["finish"] == "ok" and obs["hit"]:
+                swallowed_tamper.append("%s %s at %s" % (h, spec.get("sub"), obs.get("hit_name")))
+        for key, what in verdicts:
+            ctx.violation(key, what, dict(spec, observed=brief(obs), corpus_file=from_corpus))
+        return obs
+
+    try:
+        # 1. corpus first
+        cspecs, cnames = [], []
+        for fname, d in common.load_corpus("C08"):
+            r = d.get("replay", d)
+            if r.get("part") == "dyn" and r.get("handler"):
+                cspecs.append({k: v for k, v in r.items() if k not in ("observed", "corpus_file")})
+                cnames.append(fname)
+        many(cspecs, cnames)
+        ctx.count("corpus", len(cspecs))
+
+        # 2. fault-free runs (stored credentials present / first-time pairing) give the message indices
+        handlers = ["mrp", "companion", "airplay_hap", "airplay_legacy", "raop", "raop_hap"]
+        bases = many([{"handler": h} for h in handlers] + [{"handler": h, "fresh": True} for h in handlers])
+        specs = []
+        sweeps = []
+        for n, h in enumerate(handlers):
+            base, fresh = bases[n], bases[n + len(handlers)]
+            if base is not None and base["begin"] == "ok" and base["finish"] == "ok":
+                specs += matrix(h, base["replies"], ctx.rng, ctx.thorough)
+                sweeps += [(h, phase, {}) for phase in ("begin", "finish")]
+            # first-time pairing (nothing stored before): Companion then skips its connect-time
+            # pair-verify, so it gets the full matrix; the others a light one in the quick tier
+            if fresh is not None and fresh["begin"] == "ok" and fresh["finish"] == "ok":
+                specs += matrix(h, fresh["replies"], ctx.rng, ctx.thorough, extra={"fresh": True}, light=not (ctx.thorough or h == "companion"))
+                if ctx.thorough or h == "companion":
+                    sweeps += [(h, phase, {"fresh": True}) for phase in ("begin", "finish")]
+                if ctx.thorough:      # credentials stored in only one of the two places
+                    specs += matrix(h, fresh["replies"], ctx.rng, False, extra={"stored": "settings-only"}, light=True)
+                    if base is not None and base["finish"] == "ok":
+                        specs += matrix(h, base["replies"], ctx.rng, False, extra={"stored": "service-only"}, light=True)
+            # (a fault-free run that fails is reported by the oracle as success-not-recorded)
+        if ctx.thorough:
+            # fresh key material / salts per run (the quick tier uses one fixed stream, rseed 1)
+            for sp in specs:
+                sp["rseed"] = ctx.rng.randrange(2, 10 ** 6)
+        specs += dmap_specs(ctx.rng, ctx.thorough)
+        many(specs)
+        # 3. cancellation at EVERY scheduling point of begin() and of finish(), not only while a reply
+        #    is awaited: cancel after k turns of the event loop, k = 0 .. until the call completes
+        k0, width = 0, 16
+        while sweeps and k0 < 96:
+            batch = [dict({"handler": h, "cancel_after": k, "phase": phase}, **extra) for (h, phase, extra) in sweeps for k in range(k0, k0 + width)]
+            res = many(batch)
+            still = []
+            for n, sw in enumerate(sweeps):
+                last = res[n * width + width - 1]
+                if last is not None and last[sw[1]] == "cancelled":
+                    still.append(sw)
+            sweeps = still
+            k0 += width
+    finally:
+        if pool:
+            pool.close()
+            pool.join()
+    ctx.traces += n_runs
+    ctx.exhaustive = True
+    ctx.extra["dyn"]["outcome_table"] = table
+    ctx.extra["dyn"]["samples"] = samples
+    ctx.extra["dyn"]["runs_of_the_real_handlers"] = n_runs
+    ctx.extra["dyn"]["tampered_replies_accepted_(authenticity,_C06,_not_judged_here)"] = sorted(set(swallowed_tamper))
+    ctx.extra["dyn"]["exception_classes_promised"] = (
+        "error_handler: OSError/TimeoutError -> ConnectionFailedError; BackOffError/NoCredentialsError pass through; anything else -> PairingError. "
+        "AirPlay/RAOP begin() awaits http_connect() outside error_handler, so OSError may surface there. Accepted: PairingError, ConnectionFailedError, "
+        "ConnectionLostError, BackOffError, NoCredentialsError (+OSError from AirPlay/RAOP begin).")
+    ctx.trusted += [
+        "fake devices of the fault enumeration (harness/c08_dyn.py): pyatv's own server-side helpers (mrp/companion/airplay server_auth.py) behind an in-memory "
+        "pipe, a legacy AirPlay SRP device written on srptools/cryptography, fake aiohttp request objects for DMAP; single-fault model (one reply replaced, the rest honest)",
+    ]
+    ctx.assumptions += [
+        "fault enumeration: replies outside the pairing exchange proper (MRP device-info, Companion connect-time pair-verify with the OLD credentials, body of the "
+        "/pair-pin-start reply) may have content faults tolerated; transport faults there must still raise",
+        "well-formed but altered replies (kind 'tamper': wrong proof, wrong signature) are an authenticity matter (C06) and only judged for consistency here",
+    ]
+
+
+def replay_part(ctx, r):
+    spec = {k: v for k, v in r.items() if k not in ("observed", "corpus_file")}
+    obs, verdicts = evaluate(spec)
+    print(json.dumps({"spec": spec, "observed": obs, "verdicts": verdicts}, indent=1, default=repr))
+    return 1 if verdicts else 0
